@@ -1004,7 +1004,80 @@ impl<'a> Observer for C13Obs<'a> {
     }
 }
 
+/// C13.d: a buffer that begins with a valid frame yields that frame (same
+/// attributes, consumed = its own length) from the scanner and from the
+/// iterator whatever follows it
+fn check_c13_scanner(with: &[u8], flen: usize, what: &str) -> Result<(), Violation> {
+    let r = catch_unwind(AssertUnwindSafe(|| {
+        let (c, f) = next_msg_frame(with);
+        let a = f.map(|f| ((f.frame_data().as_ptr() as usize).wrapping_sub(with.as_ptr() as usize), f.frame_len(), f.message_number(), f.crc(), f.data_len()));
+        let mut it = MsgFrameIter::new(with);
+        let g = (&mut it).next().map(|f| ((f.frame_data().as_ptr() as usize).wrapping_sub(with.as_ptr() as usize), f.frame_len(), f.message_number(), f.crc(), f.data_len()));
+        (c, a, g, it.consumed())
+    }));
+    let l = flen - 6;
+    let want_crc = ((with[flen - 3] as u32) << 16) | ((with[flen - 2] as u32) << 8) | with[flen - 1] as u32;
+    let want = Some((0usize, flen, ref_number(&with[3..3 + l]), want_crc, l));
+    match r {
+        Ok((c, a, g, ic)) => {
+            if c != flen || a != want || g != want || ic != flen {
+                return Err(Violation::new(
+                    "C13",
+                    "C13.d",
+                    format!(
+                        "{}: valid frame of {} bytes (payload {}) followed by {} bytes: scanner returned consumed={} frame={:?}, iterator first={:?} consumed()={}; the frame's own bytes say {:?} (frame [{}], next byte {:?})",
+                        what,
+                        flen,
+                        l,
+                        with.len() - flen,
+                        c,
+                        a,
+                        g,
+                        ic,
+                        want,
+                        short_hex(&with[..flen]),
+                        with.get(flen)
+                    ),
+                ));
+            }
+            Ok(())
+        }
+        Err(e) => Err(Violation::new("C13", "C13.d", format!("{}: scanner panicked on a valid frame followed by {} bytes: {}", what, with.len() - flen, panic_text(&e)))),
+    }
+}
+
 fn judge_c13(trace: &StreamTrace, mut stats: Option<&mut Stats>) -> Option<Violation> {
+    // ground truth: intact frames of the stream, each with the suffix the stream gives it
+    let mut pre_evals = 0u64;
+    let mut done = 0;
+    for s in &trace.segments {
+        if !s.intact || done >= 12 {
+            continue;
+        }
+        let with = &trace.stream[s.start..];
+        if ref_accept(with) != Accept::Accept(s.len - 6) {
+            continue;
+        }
+        done += 1;
+        if let Err(v) = check_c13_scanner(with, s.len, &format!("intact frame '{}' at abs {} with the rest of the stream behind it", s.label, s.start)) {
+            return Some(v);
+        }
+        // and with a one-byte and a two-byte suffix taken from the stream / fixed
+        for sfx in [&[0x00u8][..], &[0xD3][..], &[0x41, 0x42][..]] {
+            let mut v = trace.stream[s.start..s.start + s.len].to_vec();
+            v.extend_from_slice(sfx);
+            if let Err(e) = check_c13_scanner(&v, s.len, &format!("intact frame '{}' at abs {} with directed suffix {:02x?}", s.label, s.start, sfx)) {
+                return Some(e);
+            }
+        }
+        pre_evals += 4;
+        if let Some(st) = stats.as_deref_mut() {
+            st.probe("c13_scanner_suffix_independence");
+        }
+    }
+    if let Some(st) = stats.as_deref_mut() {
+        st.oracle_evals += pre_evals;
+    }
     let mut obs = C13Obs { stats: stats.as_deref_mut(), evals: 0, deliveries: 0 };
     let r = catch_unwind(AssertUnwindSafe(|| drive(trace, trace.rx_variant, "C13", &mut obs)));
     let evals = obs.evals;
